@@ -86,3 +86,60 @@ func H_c03_stripnull() {
 	verif_assert(got == s[lo:hi], "StripNull trims exactly the leading and trailing NUL bytes")
 	verif_witness()
 }
+
+// verifRune draws one Unicode scalar value of the given UTF-8 length class (1..4 bytes).
+func verifRune(class int) rune {
+	switch class {
+	case 1:
+		c := nondet_u8("ascii")
+		verif_assume(c >= 1)
+		verif_assume(c < 0x80)
+		return rune(c)
+	case 2:
+		v := nondet_u16("r2")
+		verif_assume(v >= 0x80)
+		verif_assume(v < 0x800)
+		return rune(v)
+	case 3:
+		v := nondet_u16("r3")
+		verif_assume(v >= 0x800)
+		if v >= 0xD800 {
+			verif_assume(v > 0xDFFF)
+		}
+		return rune(v)
+	}
+	v := nondet_u32("r4")
+	verif_assume(v >= 0x10000)
+	verif_assume(v <= 0x10FFFF)
+	return rune(v)
+}
+
+// H_c02_encode_utf16: the text an operator types reaches the agent as UTF-16LE exactly:
+// EncodeUTF16 of 1..2 arbitrary characters of any UTF-8 length class (supplementary-plane
+// characters become surrogate pairs) equals the reference encoding followed by the NUL
+// terminator.
+func H_c02_encode_utf16() {
+	n := 1 + nondet_choice("runes", 2)
+	var rs []rune
+	var in []byte
+	buf := make([]byte, 4)
+	for i := 0; i < n; i++ {
+		r := verifRune(1 + nondet_choice("utf8-length", 4))
+		rs = append(rs, r)
+		k := utf8.EncodeRune(buf, r)
+		in = append(in, buf[:k]...)
+	}
+	var want []byte
+	for _, u := range utf16.Encode(rs) {
+		want = append(want, byte(u), byte(u>>8))
+	}
+	want = append(want, 0, 0)
+	got := EncodeUTF16(string(in))
+	verif_assert(len(got) == len(want), "EncodeUTF16 has the reference length (text plus terminator)")
+	if len(got) == len(want) {
+		for i := range want {
+			verif_assert(got[i] == want[i], "EncodeUTF16 equals the reference UTF-16LE encoding")
+		}
+	}
+	verif_witness()
+}
